@@ -77,7 +77,7 @@ Lemma dec_scalar_wfs : forall k s cur v s', dec_scalar k s cur = Ok v s' -> wfs 
 Proof.
   intros k s cur v s' H.
   assert (E : exists x, v = VInt (sk_cast k x)).
-  { destruct k; cbn [dec_scalar] in H;
+  { rewrite dec_scalar_spec in H. destruct k;
       match type of H with
       | context [read_varint s] => destruct (read_varint s) as [u s1| |s1]; try discriminate
       | context [read_fixed ?n s] => destruct (read_fixed n s) as [[u s1]|]; try discriminate
@@ -299,7 +299,7 @@ Qed.
 Theorem ssize_nonneg : forall t v, 0 <= ssize t v.
 Proof.
   induction t using ty_ind'; intros v; destruct v; cbn [ssize]; try lia.
-  - destruct k; cbn [sk_size]; try apply pb_nonneg; unfold float_size, double_size; lia.
+  - rewrite sk_size_spec. destruct k; cbn [wide]; try apply pb_nonneg; lia.
   - apply sumZ_nonneg. apply Forall_forall. intros z Hz. apply in_map_iff in Hz. destruct Hz as (x & <- & _).
     pose proof (packed_size_ge t (ssize t x) (IHt x)). pose proof (IHt x). lia.
   - apply sumZ_nonneg. apply Forall_forall. intros z Hz. apply in_map_iff in Hz. destruct Hz as (x & <- & _).
